@@ -106,16 +106,17 @@ CLAIMED = {
         technique="Coq proof (filtering commutes with the session fold and the builder) + paired exports with and without -a",
         design="3 C13"),
     "C09": dict(
-        text="Proof (partial): Coq theorems over a model of keylog_reader.get_keys_from_string and of run(): C09_line_ends (the keys of a text are the keys of its lines, LF or "
-             "CRLF), C09_decorations / C09_comment / C09_blank (lines that are not 'LABEL random secret' contribute nothing wherever they stand), C09_hex_case (upper- or "
-             "lower-case hex digits give the same key), C09_blocks_in_front (secrets in one or several decryption-secrets blocks in front of the packets = the same secrets in "
-             "a file, for any traffic, also as the only source), C09_blocks_anywhere_tls (for TLS over TCP the blocks may stand anywhere). Independence of line ORDER and of "
-             "DUPLICATE lines has no theorem yet (the derivations take the last line per label resp. the first line of the connection, which coincide on a consistent log): "
-             "decided by the shuffled/duplicated supplies of the check. The text model is tied to the code by correspondence on structured and near-miss texts.",
-        note="Trusted: Coq kernel; key-log text is ASCII; pcapng block framing of DSBs and open()/decode are not modelled (the model starts at the text); working-directory "
-             "independence is exercised by the check only.",
-        technique="Coq proof (line splitting lemmas, deterministic regex matcher, folds that only append to the key log) + byte-identical exports under ten ways of supplying the secrets",
-        design="3 C09"),
+        text="Proof: Coq theorems over a model of keylog_reader.get_keys_from_string and of run(): C09_line_ends (the keys of a text are the keys of its lines, LF or CRLF), "
+             "C09_decorations / C09_comment / C09_blank (lines that are not 'LABEL random secret' contribute nothing wherever they stand), C09_hex_case (upper- or lower-case "
+             "hex digits give the same key), C09_order_and_duplicates_tls13 / C09_order_and_duplicates_quic (the derivations take the last line per label: two logs with the same "
+             "lines in any order and with any repetitions, each label's lines agreeing, give the same keys), C09_first_line / C09_duplicates_first_line (TLS <= 1.2 uses the "
+             "first line of the connection), C09_blocks_in_front (secrets in one or several decryption-secrets blocks in front of the packets = the same secrets in a file, "
+             "for any traffic, also as the only source), C09_blocks_anywhere_tls (for TLS over TCP the blocks may stand anywhere). Closed under the global context. The text "
+             "model is tied to the code by correspondence on structured and near-miss texts; ten ways of supplying the same secrets must give byte-identical exports.",
+        note="Trusted: Coq kernel; key-log text is ASCII; pcapng block framing of DSBs is C12's reader model; open()/decode and working-directory independence are exercised "
+             "by the check only.",
+        technique="Coq proof (line splitting lemmas, deterministic regex matcher, closed form of the last-wins loops, folds that only append to the key log) + byte-identical exports under ten supplies",
+        design="I.4 C09"),
     "C10": dict(
         text="Proof: Coq theorems C10_only_watched_ports / C10_session_on_watched_port (a TCP packet that belongs to no session opens one iff one of its ports is a default or "
              "-p port; roles by C07_roles), C10_exported_ports_tls / C10_exported_ports_quic (client port never changed; server port original without -m, mapped for listed "
